@@ -22,6 +22,52 @@ def field_effects(prog):
     return eff
 
 
+def param_field_effects(prog):
+    """bodies that write a field of a local ADT *through a `&mut` parameter* (i.e. state owned by
+    the caller): body id -> set of (adt, field)"""
+    out = collections.defaultdict(set)
+    for bid, b in prog.bodies.items():
+        mutparams = set(i for i in range(1, b.argc + 1) if b.local_ty(i).startswith("&mut "))
+        if not mutparams and "{closure" not in bid:
+            continue
+        # locals that alias (a part of) a &mut parameter: reborrows / copies of it
+        alias = set(mutparams)
+        if "{closure" in bid:
+            alias.add(1)  # the closure environment may capture &mut state of the parent
+        changed = True
+        while changed:
+            changed = False
+            for bl in b.blocks:
+                for s in bl["s"]:
+                    rv = s.get("rv")
+                    if not rv or s["p"]["p"]:
+                        continue
+                    src = None
+                    if rv["r"] == "ref" and str(rv.get("bk")).lower().startswith("mut"):
+                        src = rv["p"]["l"]
+                    elif rv["r"] in ("use", "cast"):
+                        q = mirq.op_place(rv["o"])
+                        src = q["l"] if q else None
+                    if src in alias and s["p"]["l"] not in alias and b.local_ty(s["p"]["l"]).startswith("&mut "):
+                        alias.add(s["p"]["l"])
+                        changed = True
+        for bl in b.blocks:
+            for s in bl["s"]:
+                places = []
+                rv = s.get("rv")
+                if any(isinstance(e, dict) and "f" in e for e in s["p"]["p"]):
+                    places.append(s["p"])
+                if rv and rv.get("r") in ("ref", "rawptr") and str(rv.get("bk")).lower().startswith("mut"):
+                    places.append(rv["p"])
+                for pl in places:
+                    if pl["l"] not in alias or "*" not in pl["p"]:
+                        continue
+                    for e in pl["p"]:
+                        if isinstance(e, dict) and "f" in e and e.get("a") in prog.adts:
+                            out[bid].add((e["a"], e.get("n")))
+    return out
+
+
 def accessor_callers(prog, names):
     """call sites of trait accessor methods that hand out &mut to a field: name -> {caller: line}"""
     out = collections.defaultdict(dict)
